@@ -26,9 +26,21 @@ func shortType(t types.Type) string {
 	})
 }
 
-func newFuncCanon(info *types.Info, fd *ast.FuncDecl) *fcanon {
+func newFuncCanon(info *types.Info, fd *ast.FuncDecl) *fcanon { return newFuncCanonMode(info, fd, false) }
+
+// newFuncCanonAbs prints receiver, parameters and every other variable without a single definition
+// by type (var<T>), so the result does not depend on which function the expression sits in.
+func newFuncCanonAbs(info *types.Info, fd *ast.FuncDecl) *fcanon { return newFuncCanonMode(info, fd, true) }
+
+func newFuncCanonMode(info *types.Info, fd *ast.FuncDecl, abs bool) *fcanon {
 	d := newDT(info)
 	p := seedEnv(d, fd)
+	if abs {
+		d.absVars = true
+		for o := range p.env {
+			p.env[o] = "var<" + shortType(o.Type()) + ">"
+		}
+	}
 	f := &fcanon{d, p}
 	// count definitions/assignments per local
 	n := map[types.Object]int{}
@@ -89,7 +101,7 @@ func newFuncCanon(info *types.Info, fd *ast.FuncDecl) *fcanon {
 		if !ok || v.IsField() {
 			return
 		}
-		if cur, seeded := p.env[obj]; seeded && (cur == "RECV" || strings.HasPrefix(cur, "ARG")) {
+		if cur, seeded := p.env[obj]; seeded && (cur == "RECV" || strings.HasPrefix(cur, "ARG") || abs) {
 			// a parameter that is also assigned holds more than one value
 			p.env[obj] = "var<" + shortType(obj.Type()) + ">"
 			return
@@ -116,11 +128,9 @@ func newFuncCanon(info *types.Info, fd *ast.FuncDecl) *fcanon {
 				for i, l := range s.Lhs {
 					if id, ok := l.(*ast.Ident); ok {
 						suf := "#" + string(rune('0'+i))
-						if i == 1 {
-							switch ast.Unparen(s.Rhs[0]).(type) {
-							case *ast.IndexExpr, *ast.TypeAssertExpr:
-								suf = "#ok"
-							}
+						switch ast.Unparen(s.Rhs[0]).(type) {
+						case *ast.IndexExpr, *ast.TypeAssertExpr:
+							suf = []string{"", "#ok"}[i]
 						}
 						bind(id, base+suf)
 					}
